@@ -87,8 +87,10 @@ Print Assumptions C18_type6_iff.
    unique_best is taken as "at most one workspace file matches each documented candidate" *)
 Definition C18_features_agree_full : Prop :=
   forall disk cfg st files cur m, index_ok st files ->
-    forall f, In f (map snd (open_outcomes st (fun f => fmem f files) cur (open_list true false m))) <->
-              In f (r_resolved (check_refer disk cfg st cur KRequire m)).
+    let out := check_refer disk cfg st cur KRequire m in
+    let oo := open_outcomes st (fun f => fmem f files) cur (open_list true false m) in
+    (forall f, In f (r_resolved out) <-> exists it, In (Some (it, f)) oo) /\
+    (r_resolved out = [] <-> In None oo).
 
 Theorem C18_features_agree : forall disk cfg st files cur m,
   index_ok st files -> all_simple files ->
@@ -99,8 +101,9 @@ Theorem C18_features_agree : forall disk cfg st files cur m,
   unique_match (doc_lua m) files -> unique_match (doc_init m) files ->
   let out := check_refer disk cfg st cur KRequire m in
   let oo := open_outcomes st (fun f => fmem f files) cur (open_list true false m) in
-  map snd oo = r_resolved out /\
-  (forall it c, In (it, c) oo -> path_suffix it c = true /\ (it = doc_lua m \/ it = doc_init m)).
+  (r_resolved out = [] /\ oo = [None]) \/
+  (exists it c, r_resolved out = [c] /\ oo = [Some (it, c)] /\ path_suffix it c = true /\
+                (it = doc_lua m \/ it = doc_init m)).
 Proof. exact features_agree. Qed.
 Print Assumptions C18_features_agree.
 
@@ -190,3 +193,32 @@ Proof.
     repeat (destruct H2 as [<-|H2]; [|]); try contradiction; try (vm_compute in P2; discriminate); reflexivity.
   - repeat split; vm_compute; reflexivity.
 Qed.
+
+(* ---- further witnesses found with the event model (Model/ModulePath.v: pinit / pstep) ---- *)
+Definition f_ws_main : list N := [47;119;115;47;109;97;105;110;46;108;117;97].              (* /ws/main.lua *)
+Definition f_ws_a_b_init : list N := [47;119;115;47;97;47;98;47;105;110;105;116;46;108;117;97].   (* /ws/a/b/init.lua *)
+Definition f_ws_a_b : list N := [47;119;115;47;97;47;98;46;108;117;97].                      (* /ws/a/b.lua *)
+
+(* main.lua: require("a.b") resolved to a/b/init.lua; then a/b.lua is created. The referencing file is not
+   re-analysed (isReferFileContainFiles compares the created path with the raw text "a.b" / "a.b.lua"), so it keeps
+   loading a/b/init.lua while a fresh start - and go-to-definition - answer a/b.lua. *)
+Theorem C18_create_not_reanalysed_refuted :
+  let refs := [(KRequire, [97; 46; 98])] in
+  let s0 := pinit ws_cfg f_ws_main [f_ws_a_b_init; f_ws_main] [f_ws_a_b_init; f_ws_main] refs in
+  let s1 := pstep ws_cfg f_ws_main false s0 (Ins f_ws_a_b) in
+  let fresh := pinit ws_cfg f_ws_main [f_ws_a_b_init; f_ws_main; f_ws_a_b] [f_ws_a_b_init; f_ws_main; f_ws_a_b] refs in
+  map rs_vstr (ps_refs s1) = [[f_ws_a_b_init]] /\ map rs_vstr (ps_refs fresh) = [[f_ws_a_b]] /\
+  open_outcomes (ps_idx s1) (fun f => mem_bytes f (ps_loaded s1)) f_ws_main (open_list true false [97; 46; 98])
+    = [Some ([97;47;98;46;108;117;97], f_ws_a_b)].
+Proof. cbv zeta. repeat split; vm_compute; reflexivity. Qed.
+Print Assumptions C18_create_not_reanalysed_refuted.
+
+(* require("./d/m"): the analysis strips "./" and loads d/m.lua; definition/hover build their candidates from the raw
+   text ("//d/m.lua") and find nothing *)
+Theorem C18_dot_slash_refuted :
+  let st := idx_run (map Ins [f_ws_cur; f_ws_d_m]) in
+  let m := [46; 47; 100; 47; 109] in
+  r_resolved (check_refer (fun _ => false) ws_cfg st f_ws_cur KRequire m) = [f_ws_d_m] /\
+  open_outcomes st (fun _ => true) f_ws_cur (open_list true false m) = [None].
+Proof. cbv zeta. split; vm_compute; reflexivity. Qed.
+Print Assumptions C18_dot_slash_refuted.
